@@ -423,6 +423,8 @@ def install_observers() -> None:
             r = _ACTIVE[-1]
             origin = "runner" if sys._getframe(1).f_code.co_name == "process_command" else "step"
             r.trace.stream.append((event, asyncio.get_event_loop().time(), len(r.trace.calls), origin))
+            if type(event).__name__ in ("WorkflowCancelledEvent", "WorkflowTimedOutEvent", "WorkflowFailedEvent") or isinstance(event, StopEvent):
+                r.trace.steps.append(("terminal", type(event).__name__, None, None, asyncio.get_event_loop().time(), {"origin": origin}))
         await _orig_write(self, event)
 
     BASIC.InternalAsyncioAdapter.write_to_event_stream = write_wrapper  # type: ignore[method-assign]
@@ -520,6 +522,13 @@ def run_spec(spec: dict, seed: int, replay_actions: list[int] | None = None, max
                 run.trace.outcome = ("error", e)
             run.finished = True
             run.trace.end_time = loop.time()
+            if spec.get("snapshot_after_end"):
+                try:
+                    run.trace.snapshots.append({"after_end": True, "at_call": len(run.trace.calls), "vtime": loop.time(),
+                                                "dict": json.loads(json.dumps(handler.ctx.to_dict())), "stream_len": len(run.trace.stream),
+                                                "steps_len": len(run.trace.steps)})
+                except Exception as e:
+                    run.trace.notes.append(f"snapshot after end failed: {type(e).__name__}: {e}")
             # give the consumer a bounded chance to finish
             for _ in range(50):
                 if ctask.done():
